@@ -65,6 +65,18 @@ impl<T> VxIter<T> {
             forall|i: int| 0 <= i < self.rest().len() ==> f.ensures((&self.rest()[i],), #[trigger] r.filter_sel()[i]),
             r.rest() == seq_select(self.rest(), r.filter_sel()),
     { unimplemented!() }
+
+    /// Iterator::take_while: the longest prefix whose elements all satisfy the predicate; the first element that
+    /// does not (if any) and everything after it is dropped
+    #[verifier::external_body]
+    pub fn take_while<F: FnMut(&T) -> bool>(self, f: F) -> (r: VxIter<T>)
+        requires forall|i: int| 0 <= i < self.rest().len() ==> f.requires((&#[trigger] self.rest()[i],)),
+        ensures
+            r.rest().len() <= self.rest().len(),
+            r.rest() == self.rest().subrange(0, r.rest().len() as int),
+            forall|i: int| 0 <= i < r.rest().len() ==> f.ensures((&#[trigger] self.rest()[i],), true),
+            r.rest().len() < self.rest().len() ==> f.ensures((&self.rest()[r.rest().len() as int],), false),
+    { unimplemented!() }
 }
 
 impl<'a, T: Copy> VxIter<&'a T> {
